@@ -188,8 +188,34 @@ def or_form(prog: Program) -> RuleResult:
     atoms = {a for val, _, _ in paths for a in val}
     order_free = ("set(", "frozenset(", ".keys()")
     cmp_atoms = [a for a in atoms if a[0] == "ord"]
-    ok_atoms = len(atoms) == 1 and len(cmp_atoms) == 1 and all(any(t.startswith(k) or t.endswith(".keys()") for k in order_free) for t in cmp_atoms[0][1:])
+    local_defs = {n.name: n for n in ast.walk(f.node) if isinstance(n, ast.FunctionDef) and n is not f.node}
+
+    def is_set_expr(e: ast.expr) -> bool:
+        if isinstance(e, (ast.Set, ast.SetComp)):
+            return True
+        if isinstance(e, ast.Call) and isinstance(e.func, ast.Name) and e.func.id in ("set", "frozenset"):
+            return True
+        if isinstance(e, ast.BinOp) and isinstance(e.op, (ast.Sub, ast.BitAnd, ast.BitOr)):
+            return is_set_expr(e.left)
+        return False
+
+    def order_free_term(t: str) -> bool:
+        if any(t.startswith(k) or t.endswith(".keys()") for k in order_free):
+            return True
+        # g(left) / g(right) for a local helper whose every return value is a set
+        for name, g in local_defs.items():
+            if t.startswith(name + "("):
+                rets = [x for x in ast.walk(g) if isinstance(x, ast.Return) and x.value is not None]
+                return bool(rets) and all(is_set_expr(x.value) for x in rets)
+        return False
+
+    ok_atoms = len(atoms) == 1 and len(cmp_atoms) == 1 and all(order_free_term(t) for t in cmp_atoms[0][1:])
     both_sides = ok_atoms and "left" in cmp_atoms[0][1] + cmp_atoms[0][2] and "right" in cmp_atoms[0][1] + cmp_atoms[0][2]
+    helper = None
+    if ok_atoms:
+        for name, g in local_defs.items():
+            if all(t.startswith(name + "(") for t in cmp_atoms[0][1:]):
+                helper = g
     r.check(ok_atoms and both_sides, "optimize_or#set-comparison", f"{f.module.relpath}:{f.node.lineno}", str(sorted(map(str, atoms))),
             "the decision compares the two variable *sets* (order and multiplicity of mention do not matter)",
             f"the form of or_ is decided by {sorted(map(str, atoms))}, not by an order-insensitive comparison of the two sides' variable sets: conditions over the same variables "
@@ -207,12 +233,35 @@ def or_form(prog: Program) -> RuleResult:
     from ..modeleval import evaluate, predicate_body
 
     filters = []
-    local_defs = {n.name: n for n in ast.walk(f.node) if isinstance(n, ast.FunctionDef) and n is not f.node}
     for c in [x for x in ast.walk(f.node) if isinstance(x, ast.Call) and isinstance(x.func, ast.Attribute) and x.func.attr == "filter" and "_unique_variables_" in src(x.func.value) and x.args]:
         a0 = c.args[0]
         fn_node = a0 if isinstance(a0, ast.Lambda) else local_defs.get(a0.id) if isinstance(a0, ast.Name) else None
         side = "left" if "left" in src(c.func.value) else ("right" if "right" in src(c.func.value) else "?")
+        if side == "?" and helper is not None and c in list(ast.walk(helper)) and helper.args.args and helper.args.args[0].arg in src(c.func.value):
+            # inside the helper that is applied to both sides
+            filters.append(("left", c, fn_node))
+            filters.append(("right", c, fn_node))
+            continue
         filters.append((side, c, fn_node))
+    # a variable that is quantified inside a side (exists / for_all) is bound there: it is not a variable the two sides could disagree
+    # about, and counting it makes or_(exists(y, ...), p(x)) the union form, whose second pass answers every x that satisfies p twice
+    qc = prog.cls("symbolic.QuantifiedConditional").qual
+    excl = False
+    for x in ast.walk(f.node):
+        if isinstance(x, ast.BinOp) and isinstance(x.op, ast.Sub):
+            names = {n.id for n in ast.walk(x.right) if isinstance(n, ast.Name)}
+            for nm in names:
+                defs = [a.value for a in ast.walk(f.node) if isinstance(a, ast.Assign) and len(a.targets) == 1 and isinstance(a.targets[0], ast.Name) and a.targets[0].id == nm]
+                for d in defs + [x.right]:
+                    for cc in [y for y in ast.walk(d) if isinstance(y, ast.Call) and isinstance(y.func, ast.Name) and y.func.id == "isinstance" and len(y.args) == 2]:
+                        ks = cc.args[1].elts if isinstance(cc.args[1], ast.Tuple) else [cc.args[1]]
+                        covered = {q.name for k_ in ks for q in prog.subclasses(qc) if f.module.resolve(k_) and prog.is_subclass(q.qual, f.module.resolve(k_))}
+                        concrete = {q.name for q in prog.subclasses(qc, strict=True) if not prog.is_abstract_class(q.qual)}
+                        if concrete and concrete <= covered and any(isinstance(y, ast.Attribute) and y.attr in ("variable", "left") for y in ast.walk(d)):
+                            excl = True
+    r.check(excl, "optimize_or#quantified-variables-excluded", f"{f.module.relpath}:{f.node.lineno}", "", "variables quantified inside a side are not counted among its variables",
+            "a variable that exists / for_all binds inside one side is counted among that side's variables: or_(exists(y, x.a > y.a), x.b == 1) ranges over x on both sides but is "
+            "built as the union form, and every x that satisfies both sides is returned twice (the(...) then reports several solutions)")
     sides = {s_ for s_, _, _ in filters}
     r.check(sides == {"left", "right"}, "optimize_or#both-sides-filtered", f"{f.module.relpath}:{f.node.lineno}", str(sorted(sides)), "the unique variables of both sides are filtered",
             "the compared sets are not the (filtered) unique variables of the left and of the right side")
